@@ -242,6 +242,7 @@ def verify_function(prog, db, q, contract, case=None):
         st.ghost['pre_state'] = pre
         fr.pre_heap = dict(pre['heap'])
         ex.before_hooks = {}
+        ex.allowed_exc = {cl.args[0].id for cl in contract.of('raises')}
         for cl in contract.of('hint'):
             at = ast.literal_eval(cl.kw['at']) if 'at' in cl.kw else 'return'
             if at.startswith('before:'):
@@ -376,6 +377,13 @@ def verify_function(prog, db, q, contract, case=None):
                                 ex.oblige(s, 'fresh:%s.%s' % (a.value.id, a.attr), ok, fi.node,
                                           text='%s.%s shares no storage with arguments (%s)' % (a.value.id, a.attr, src.note or src.origin))
             else:
+                for lcl in contract.of('let'):
+                    for k2, a in lcl.kw.items():
+                        try:
+                            loc.env[k2] = ex.evs(a, loc)
+                        except Unsupported as u:
+                            if 'unbound name' not in str(u):
+                                raise
                 if v in raises:
                     cl = raises[v]
                     if 'may' in cl.kw:
